@@ -30,33 +30,33 @@ Proof. exact StoreRefine.c01_refines_sorted_map. Qed.
 Print Assumptions c06_history.
 
 (* ---------------------------------------------------------------------------------------------- *)
-(* REGENERATED FROM THE SOURCE ON EVERY RUN (tools/gen -> Generated.g_code; Decisions.v): the decisions the model
+(* REGENERATED FROM THE SOURCE ON EVERY RUN (tools/gen -> Generated.g_code; DecBase.v, Dec*.v): the decisions the model
    takes at these points are the evaluations of the conditions the Go source has there, for all values of their
    variables. *)
-From GK Require Import GExpr Generated Decisions.
+From GK Require Import GExpr Generated DecBase DecVisit.
 From Coq Require Import String.
 
 (* ascendChoice / descendChoice are the choices of Treap.visit *)
 Theorem c06_ascend_choice_is_source :
   exists c, choice_of "ascendChoice" = Some c /\
     forall o : comparison, gtrue (upd env0 "cmp" (cmpz o)) c = Some (match o with Gt => false | _ => true end).
-Proof. exact Decisions.ascend_choice_decision. Qed.
+Proof. exact DecVisit.ascend_choice_decision. Qed.
 Print Assumptions c06_ascend_choice_is_source.
 Theorem c06_descend_choice_is_source :
   exists c, choice_of "descendChoice" = Some c /\
     forall o : comparison, gtrue (upd env0 "cmp" (cmpz o)) c = Some (match o with Gt => true | _ => false end).
-Proof. exact Decisions.descend_choice_decision. Qed.
+Proof. exact DecVisit.descend_choice_decision. Qed.
 Print Assumptions c06_descend_choice_is_source.
 
 (* visitNodes stops as soon as the visitor answers false *)
 Theorem c06_visitor_stop_is_source :
   exists c, decisions "Store.visitNodes" "visitor" = [c] /\
     forall answer : bool, gtrue (upd env0 "visitor(nItem,depth)" (b2z answer)) c = Some (negb answer).
-Proof. exact Decisions.visitor_stop_decision. Qed.
+Proof. exact DecVisit.visitor_stop_decision. Qed.
 Print Assumptions c06_visitor_stop_is_source.
 
 Theorem c06_visit_item_reads_are_source :
   filter (fun c => String.eqb (fst c) "nItemLoc.read") (calls_a 400 (body "Store.visitNodes")) =
   [("nItemLoc.read", [GVar "t"; GVar "false"]); ("nItemLoc.read", [GVar "t"; GVar "withValue"])].
-Proof. exact Decisions.visit_item_reads. Qed.
+Proof. exact DecVisit.visit_item_reads. Qed.
 Print Assumptions c06_visit_item_reads_are_source.
